@@ -7,6 +7,7 @@ import (
 	"fmt"
 	"mime"
 	"net/http"
+	"net/url"
 	"path"
 	"strconv"
 	"strings"
@@ -680,7 +681,7 @@ func (b *backend) Put(w http.ResponseWriter, r *http.Request) error {
 		w.Header().Set("Last-Modified", ao.ModTime.UTC().Format(http.TimeFormat))
 	}
 	if ao.Path != "" {
-		w.Header().Set("Location", ao.Path)
+		w.Header().Set("Location", (&url.URL{Path: ao.Path}).String())
 	}
 
 	// TODO: http.StatusNoContent if the resource already existed
